@@ -2,8 +2,9 @@
 from .catalogue import Entry
 
 
-def trees(max_regions, max_depth):
-    """all region forests: node = (kind, raise_pos, children) ; kind 'G' = runtime.guarded, 'P' = add_guard/restore_guard pair"""
+def trees(max_regions, max_depth, kinds=("G", "P")):
+    """all region forests: node = (kind, raise_pos, children) ; kind 'G' = runtime.guarded, 'P' = add_guard/restore_guard pair,
+    'I' = block-API _if ... _endif, 'J' = block-API _if/_else whose closing _endif raises (else branch forgets a variable)"""
     def forests(budget, depth):
         # list of (forest, used)
         out = [((), 0)]
@@ -19,7 +20,7 @@ def trees(max_regions, max_depth):
         if budget < 1:
             return out
         for kids, used in forests(budget - 1, depth - 1):
-            for kind in ("G", "P"):
+            for kind in kinds:
                 rps = [None] + (list(range(len(kids) + 1)) if kind == "G" else [])
                 for rp in rps:
                     out.append(((kind, rp, kids), used + 1))
@@ -84,6 +85,28 @@ def run_history(k, forest, e0):
         try:
             if kind == "G":
                 rt.guarded(k.S(nm))(body)()
+            elif kind in ("I", "J"):
+                br = k.br
+                ctx = br.BranchingValues()
+                ctx.v = 0
+                try:
+                    br._if(k.S(nm), ctx=ctx)
+                except ValueError:
+                    raise RuntimeError("incorrect guard value (not boolean)")
+                body()
+                ctx.v = 1
+                if kind == "J":
+                    ctx.fresh = 5                # defined in the if-branch only ...
+                    br._else(ctx=ctx)
+                    ctx.v = 2
+                    try:
+                        br._endif(ctx=ctx)       # ... so closing the block raises
+                        obs.append(("region %d: a branch that forgets a variable is reported" % ci, False))
+                    except RuntimeError as ex:
+                        if "did not set value" not in str(ex):
+                            raise
+                else:
+                    br._endif(ctx=ctx)
             else:
                 bak = rt.add_guard(k.S(nm))
                 try:
@@ -117,7 +140,13 @@ def _assume(k, nconds):
 def build(n=4, tier="quick"):
     maxr, maxd = (3, 2) if tier == "quick" else (4, 3)
     ents = []
-    for fi, f in enumerate(trees(maxr, maxd)):
+    forests = list(trees(maxr, maxd))
+    seen = set(forests)
+    for f in trees(2 if tier == "quick" else 3, 2, kinds=("G", "P", "I", "J")):
+        if f not in seen:
+            forests.append(f)
+            seen.add(f)
+    for fi, f in enumerate(forests):
         nc = count(f)
         for e0 in (False, True):
             name = "hist_%s_e%d" % (shape_name(f), int(e0))
